@@ -13,7 +13,7 @@ type MutexState struct {
 func MuLock(m *MutexState) {
 	w := W
 	w.checkDead()
-	w.yield(pendingOp{kind: opLock, enabled: func() bool { return !m.locked }, desc: "Mutex.Lock"})
+	w.yield(pendingOp{kind: opLock, mu: m, desc: "Mutex.Lock"})
 	m.locked = true
 	w.event(unsafe.Pointer(m), 0x20, 0)
 	if w.race != nil {
@@ -63,7 +63,7 @@ type RWState struct {
 func RWLock(m *RWState) {
 	w := W
 	w.checkDead()
-	w.yield(pendingOp{kind: opLock, enabled: func() bool { return !m.writer && m.readers == 0 }, desc: "RWMutex.Lock"})
+	w.yield(pendingOp{kind: opLock, rw: m, desc: "RWMutex.Lock"})
 	m.writer = true
 	w.event(unsafe.Pointer(m), 0x23, 0)
 	if w.race != nil {
@@ -90,7 +90,7 @@ func RWUnlock(m *RWState) {
 func RWRLock(m *RWState) {
 	w := W
 	w.checkDead()
-	w.yield(pendingOp{kind: opRLock, enabled: func() bool { return !m.writer }, desc: "RWMutex.RLock"})
+	w.yield(pendingOp{kind: opRLock, rw: m, desc: "RWMutex.RLock"})
 	m.readers++
 	w.event(unsafe.Pointer(m), 0x25, 0)
 	if w.race != nil {
@@ -123,7 +123,7 @@ type OnceState struct {
 func OnceDo(o *OnceState, f func()) {
 	w := W
 	w.checkDead()
-	w.yield(pendingOp{kind: opOnce, enabled: func() bool { return !o.running }, desc: "Once.Do"})
+	w.yield(pendingOp{kind: opOnce, once: o, desc: "Once.Do"})
 	if o.done {
 		w.event(unsafe.Pointer(o), 0x27, 1)
 		if w.race != nil {
@@ -170,7 +170,7 @@ func WGAdd(g *WGState, d int) {
 func WGWait(g *WGState) {
 	w := W
 	w.checkDead()
-	w.yield(pendingOp{kind: opWait, enabled: func() bool { return g.n == 0 }, desc: "WaitGroup.Wait"})
+	w.yield(pendingOp{kind: opWait, wg: g, desc: "WaitGroup.Wait"})
 	w.event(unsafe.Pointer(g), 0x2a, 0)
 	if w.race != nil {
 		w.race.acquire(w.cur, &g.rc)
@@ -192,7 +192,7 @@ func CondWait(c *CondState, unlock func(), lock func()) {
 	cw := &condWaiter{}
 	c.waiters = append(c.waiters, cw)
 	unlock()
-	w.yield(pendingOp{kind: opWait, enabled: func() bool { return cw.signalled }, desc: "Cond.Wait"})
+	w.yield(pendingOp{kind: opWait, cw: cw, desc: "Cond.Wait"})
 	w.event(unsafe.Pointer(c), 0x2b, 0)
 	if w.race != nil {
 		w.race.acquire(w.cur, &c.rc)
